@@ -295,6 +295,9 @@ func structOf(t types.Type) (*types.Struct, types.Type) {
 // zero value of a Go type as an SMT term.
 func (g *Gen) zero(t types.Type) Term {
 	s := g.sortOf(t)
+	if strings.HasPrefix(s, "O_") || strings.HasPrefix(s, "I_") || strings.HasPrefix(s, "TP_") || s == "Fn" {
+		return g.zeroNamed(s)
+	}
 	switch tt := t.Underlying().(type) {
 	case *types.Basic:
 		switch {
@@ -425,7 +428,7 @@ const strPrelude = `
 (declare-fun str_sub (Str Int Int) Str)
 (declare-fun str_cat (Str Str) Str)
 (declare-fun str_lt (Str Str) Bool)
-(assert (forall ((s Str)) (! (>= (str_len s) 0) :pattern ((str_len s)))))
+(assert (forall ((s Str)) (! (and (>= (str_len s) 0) (<= (str_len s) 4611686018427387904)) :pattern ((str_len s)))))
 (assert (forall ((s Str) (i Int)) (! (and (<= 0 (str_at s i)) (<= (str_at s i) 255)) :pattern ((str_at s i)))))
 (assert (forall ((x Str)) (! (not (str_lt x x)) :pattern ((str_lt x x)))))
 (assert (forall ((x Str) (y Str)) (! (=> (str_lt x y) (not (str_lt y x))) :pattern ((str_lt x y)))))
